@@ -224,3 +224,106 @@ Example C07_silent_hypotheses :
   (match tx_silent default_params OpOperate 3 p with Ok (_, l) => map tx_events l | _ => [] end) =
     [[]; []; [EvOffline]].
 Proof. cbv zeta. split; [discriminate|]. split; [vm_compute; split; discriminate|vm_compute; reflexivity]. Qed.
+
+(* ====================================================================================================
+   C07 (phase 3): THE BRIDGE to the DP master -- recovery counted in MASTER cycles.
+
+   Proofs/C07Bridge.v.  The fault-free bus with the model of DpMaster (DpMaster.v) and n >= 1 reference slaves
+   (Slave.v): `master_visit pa bufsize (m, slaves) now hp` = one token visit: DpMaster.dp_transmit; a Global_Control
+   broadcast is seen by every device; a request is seen by the device with the destination address
+   (`find_slave`: the first device with that station address), and its answer -- if it decodes completely and
+   passes the FDL admission rule (C07Joint.deliver) -- is handed to dp_receive_reply, otherwise dp_handle_timeout:
+   nothing is lost.  `master_run` = any schedule of visits (time, HighPrioOnly), Ok = no panic site reached; the
+   number it returns counts the visits that reported DpEvents.cycle_completed = completed DP cycles.
+   Hypotheses on the start state: not stopped; own address 0..126; transmit buffer >= 255 bytes; the occupied
+   slots have distinct station addresses (`addr_inj`); `Ccomp m0` (CycleState::CycleCompleted only with at least
+   one peripheral); every occupied slot has a device and the pair satisfies C07Joint.jinv (the hypotheses of
+   C07_recovery).  The master may be at ANY position of its cycle (pos_rem m0 = the slots that still have their turn
+   in the current cycle; at a cycle boundary, as after DpMaster::new or a completed cycle, pos_rem m0 = occupied m0).
+   Any number of slots and peripherals, any storage layout, any visit times (global control interleaved anywhere).
+   ==================================================================================================== *)
+From PB Require Import DpMaster Slave C14History DpOracleSound C07Bridge.
+
+(* The bridge: after every run with K completed master cycles, the peripheral of every slot and its device are exactly
+   where n cycles of the single-peripheral joint system of C07_recovery take the pair they started from (the
+   device up to the Global_Control command it recorded, `gceq`: all other fields equal), with n >= K for a slot that
+   still had its turn in the cycle in which the run started (vbit m0 i = 0: every slot, if the run starts at a cycle
+   boundary) and n + 1 >= K for the others.  So the calls
+   Peripheral::transmit_telegram / receive_reply that DpMaster makes for one peripheral over master cycles ARE a run
+   of the joint system, at least one joint cycle per master cycle (a retransmission after a time-out happens at the
+   next token visit inside the same master cycle). *)
+Theorem C07_master_runs_joint_system : forall pa bufsize m0 sl0,
+  dm_op m0 <> OpStop -> 0 <= p_address pa <= 126 -> (255 <= bufsize)%nat -> addr_inj m0 ->
+  Ccomp m0 ->
+  (forall i p0, slot m0 i = Some p0 ->
+     exists k s0, find_slave sl0 (pe_addr p0) = Some k /\ nth_error sl0 k = Some s0 /\ jinv pa p0 s0) ->
+  forall sched m sl K, master_run pa bufsize (m0, sl0) sched = Ok ((m, sl), K) ->
+  forall i p0 k s0, slot m0 i = Some p0 -> find_slave sl0 (pe_addr p0) = Some k -> nth_error sl0 k = Some s0 ->
+  exists p s n sx evs,
+    slot m i = Some p /\ find_slave sl (pe_addr p) = Some k /\ nth_error sl k = Some s /\
+    joint_run pa (dm_op m0) n (p0, s0) = Ok ((p, sx), evs) /\ gceq sx s /\ (K <= n + vbit m0 i)%nat.
+Proof. exact master_runs_joint_system. Qed.
+Print Assumptions C07_master_runs_joint_system.
+
+(* C07_recovery for the master: if no pair is in the class of known finding F15, then in EVERY run of the fault-free
+   bus that has completed at least max_retry + 11 master cycles (one more if the run starts inside a cycle), every
+   peripheral is in DataExchange with its device in Data_Exch -- and stays there: the statement holds for every
+   longer run as well. *)
+Theorem C07_recovery_master : forall pa bufsize m0 sl0,
+  dm_op m0 <> OpStop -> 0 <= p_address pa <= 126 -> (255 <= bufsize)%nat -> addr_inj m0 ->
+  Ccomp m0 ->
+  (forall i p0, slot m0 i = Some p0 ->
+     exists k s0, find_slave sl0 (pe_addr p0) = Some k /\ nth_error sl0 k = Some s0 /\ jinv pa p0 s0 /\
+                  ~ f15_class pa (dm_op m0) (p0, s0)) ->
+  forall sched m sl K, master_run pa bufsize (m0, sl0) sched = Ok ((m, sl), K) ->
+  (c07_cycles (p_max_retry pa) + (if list_eq_dec Nat.eq_dec (pos_rem m0) (occupied m0) then 0 else 1) <= K)%nat ->
+  forall i p, slot m i = Some p ->
+  exists k s, find_slave sl (pe_addr p) = Some k /\ nth_error sl k = Some s /\
+              pe_state p = PsDataExchange /\ sl_st s = SlDataExch.
+Proof. exact recovery_master. Qed.
+Print Assumptions C07_recovery_master.
+
+(* the same with the explicit condition of C07_recovery_explicit *)
+Theorem C07_recovery_master_explicit : forall pa bufsize m0 sl0,
+  dm_op m0 <> OpStop -> 0 <= p_address pa <= 126 -> (255 <= bufsize)%nat -> addr_inj m0 ->
+  Ccomp m0 ->
+  (forall i p0, slot m0 i = Some p0 ->
+     exists k s0, find_slave sl0 (pe_addr p0) = Some k /\ nth_error sl0 k = Some s0 /\ jinv pa p0 s0 /\
+                  ~ f15_suspect (p0, s0)) ->
+  forall sched m sl K, master_run pa bufsize (m0, sl0) sched = Ok ((m, sl), K) ->
+  (c07_cycles (p_max_retry pa) + (if list_eq_dec Nat.eq_dec (pos_rem m0) (occupied m0) then 0 else 1) <= K)%nat ->
+  forall i p, slot m i = Some p ->
+  exists k s, find_slave sl (pe_addr p) = Some k /\ nth_error sl k = Some s /\
+              pe_state p = PsDataExchange /\ sl_st s = SlDataExch.
+Proof. exact recovery_master_explicit. Qed.
+Print Assumptions C07_recovery_master_explicit.
+
+(* the engine: one token visit from EVERY state satisfying the bridge invariant preserves it, counting the completed
+   cycle (BI m sl K: same occupied slots, addresses and operating state as at the start; every slot's pair is
+   reached by n cycles of the joint system with K + [the slot already had its turn in this cycle] <= n + [it
+   already had its turn in the cycle in which the run started]) *)
+Theorem C07_bridge_step : forall pa bufsize op m0 sl0,
+  op <> OpStop -> 0 <= p_address pa <= 126 -> (255 <= bufsize)%nat -> addr_inj m0 ->
+  (forall i p0, slot m0 i = Some p0 ->
+     exists k s0, find_slave sl0 (pe_addr p0) = Some k /\ nth_error sl0 k = Some s0 /\ jinv pa p0 s0) ->
+  forall m sl K now hp m' sl' cc,
+  BI pa op m0 sl0 m sl K -> master_visit pa bufsize (m, sl) now hp = Ok ((m', sl'), cc) ->
+  BI pa op m0 sl0 m' sl' (K + (if cc then 1 else 0)).
+Proof. exact visit_bi. Qed.
+Print Assumptions C07_bridge_step.
+
+(* non-vacuity: a master with two fresh peripherals (addresses 5 and 6) and two fresh devices meets all hypotheses;
+   40 token visits 1000 us apart (global control broadcasts interleaved: both devices recorded the command)
+   complete 13 >= 12 = max_retry + 11 cycles and end with both peripherals in DataExchange, both devices in Data_Exch *)
+Example C07_recovery_master_witness :
+  dm_op bx_m0 <> OpStop /\ 0 <= p_address default_params <= 126 /\ (255 <= 256)%nat /\ addr_inj bx_m0 /\
+  Ccomp bx_m0 /\ pos_rem bx_m0 = occupied bx_m0 /\
+  (forall i p0, slot bx_m0 i = Some p0 ->
+     exists k s0, find_slave bx_sl0 (pe_addr p0) = Some k /\ nth_error bx_sl0 k = Some s0 /\
+                  jinv default_params p0 s0 /\ ~ f15_suspect (p0, s0)) /\
+  c07_cycles (p_max_retry default_params) = 12%nat /\
+  exists m sl, master_run default_params 256 (bx_m0, bx_sl0) (bx_sched 40) = Ok ((m, sl), 13%nat) /\
+    map (fun o => match o with Some p => Some (pe_state p) | None => None end) (dm_slots m) =
+      [Some PsDataExchange; Some PsDataExchange] /\
+    map sl_st sl = [SlDataExch; SlDataExch] /\ map sl_gc sl = [Some 0; Some 0].
+Proof. exact bridge_example. Qed.
